@@ -120,6 +120,10 @@ HARNESSES += [
                 'thorough': {'defs': {'KLEN': 12, 'UMAX': 2}, 'unwind': 15, 'cap': 3000}}},
 ]
 
+# ---- get_fptr totality (the harness is shared with C13: harness/c13_modules.cxx) -----------------------------------
+from cat.c13 import _fptr
+HARNESSES += [_fptr('c20_fptr_total', 'C20', 1)]
+
 PROPERTY_INFO = {'C20': {'level': 'model_checking',
          'explanation': 'bounded symbolic execution (CBMC) of the real query-interface code lowered from /repo',
          'outside': 'databases larger than the bounds; lazily loaded files (load_latest is cut)',
